@@ -226,13 +226,15 @@ def verify_body(ex, c, info, fn, bound=None):
         E = type(pr.exc)
         if c.raises_only is not None:
             ok = any(issubclass(E, a) for a in c.raises_only)
-            ex.check("raises_only", ok, detail=f"raised {E.__name__}: {pr.exc}")
+            ex.check(c.raises_only_name, ok, detail=f"raised {E.__name__}: {pr.exc}")
         env = dict(bound, raised=pr.exc, **genv)
         bind_globals_new(ex, c, env, False)
         for n, exc, clause in c.raises:
             if any(k.__name__ == exc for k in E.__mro__):
                 ex.check(n, eval_clause(ex, clause, env))
         raise
+    if c.raises_only is not None:
+        ex.check(c.raises_only_name, True)       # same obligation on the paths that return (keeps its name known)
     env = dict(bound, result=result, **genv)
     bind_globals_new(ex, c, env, False)
     for n, clause in c.ensures:
